@@ -15,6 +15,9 @@ from ..alias import returns_alias_of_param
 from ..core import AnalysisError
 from ..core import RuleResult
 from ..core import norm
+from ..flow import BaseState
+from ..flow import Domain
+from ..flow import Interp
 from ..model import ancestors
 from ..model import own_nodes
 
@@ -259,6 +262,214 @@ def key_fragments(model):
     return out
 
 
+# ------------------------------------------------ extractor semantics
+class _KS(BaseState):
+    def __init__(self, k=None, out=None):
+        self.k = k          # abstract value of the key variable
+        self.out = out      # abstract value accumulated / returned
+
+    def key(self):
+        return (self.k, self.out)
+
+    def copy(self):
+        n = _KS(self.k, self.out)
+        n.trace = self.trace
+        return n
+
+
+SMALL = 'SMALLEST'
+
+
+class _KeyDomain(Domain):
+    """The key variable holds one of: NONE, FALSY (0, '', False ...),
+    TRUTHY (basic value), CALLABLE (non-basic callable), RESULT (what the
+    callable returned: a value), SMALLEST."""
+
+    def __init__(self, kv, start):
+        self.kv = kv
+        self.start = start
+
+    def _val(self, e, st):
+        """abstract value(s) of an expression over the key variable"""
+        if isinstance(e, ast.Name):
+            if e.id == self.kv:
+                return [st.k]
+            if e.id == '_Smallest':
+                return [SMALL]
+            return ['OTHER']
+        if isinstance(e, ast.Constant):
+            return ['NONE'] if e.value is None else ['OTHER']
+        if isinstance(e, ast.BoolOp) and isinstance(e.op, ast.Or):
+            out = []
+            cur = [None]
+            first = self._val(e.values[0], st)
+            for v in first:
+                t = self._truth_of(v)
+                if t in (True, None):
+                    out.append(v)
+                if t in (False, None):
+                    out += self._val(ast.BoolOp(op=ast.Or(),
+                                                values=e.values[1:]), st) \
+                        if len(e.values) > 2 else self._val(e.values[1], st)
+            return out
+        if isinstance(e, ast.IfExp):
+            out = []
+            for b, s2 in self.branch(e.test, st):
+                out += self._val(e.body if b else e.orelse, s2)
+            return out
+        if isinstance(e, ast.Call) and isinstance(e.func, ast.Name) and \
+                e.func.id == self.kv:
+            return ['RESULT', 'NONE']
+        if isinstance(e, ast.Call) and isinstance(e.func, ast.Name) and \
+                e.func.id == 'getattr' or (
+                    isinstance(e, ast.Call) and
+                    isinstance(e.func, ast.Attribute) and
+                    e.func.attr == 'get') or isinstance(e, ast.Subscript):
+            return [self.start]
+        return ['OTHER']
+
+    @staticmethod
+    def _truth_of(v):
+        return {'NONE': False, 'FALSY': False, 'TRUTHY': True,
+                'CALLABLE': True, SMALL: True}.get(v)
+
+    def truth(self, e, st):
+        if isinstance(e, ast.UnaryOp) and isinstance(e.op, ast.Not):
+            v = self.truth(e.operand, st)
+            return None if v is None else not v
+        if isinstance(e, ast.Name) and e.id == self.kv:
+            return self._truth_of(st.k)
+        if isinstance(e, ast.Call):
+            f = norm(e.func)
+            arg = norm(e.args[0]) if e.args else ''
+            if f == 'callable' and arg == self.kv:
+                return st.k == 'CALLABLE'
+            if f.endswith('basic_type') or f == 'isinstance':
+                if self.kv in arg or (e.args and any(
+                        isinstance(x, ast.Name) and x.id == self.kv
+                        for x in ast.walk(e.args[0]))):
+                    return st.k in ('NONE', 'FALSY', 'TRUTHY', 'RESULT')
+            if f == 'hasattr' and arg == self.kv:
+                return st.k == 'CALLABLE'
+            return None
+        if isinstance(e, ast.Compare) and len(e.ops) == 1 and \
+                isinstance(e.left, ast.Name) and e.left.id == self.kv:
+            c = e.comparators[0]
+            if isinstance(c, ast.Constant) and c.value is None:
+                if isinstance(e.ops[0], (ast.Is, ast.Eq)):
+                    return st.k == 'NONE'
+                if isinstance(e.ops[0], (ast.IsNot, ast.NotEq)):
+                    return st.k != 'NONE'
+            if isinstance(c, ast.Name) and c.id == '_Smallest':
+                if isinstance(e.ops[0], (ast.Is, ast.Eq)):
+                    return st.k == SMALL
+                return st.k != SMALL
+        return None
+
+    def branch(self, test, st):
+        v = self.truth(test, st)
+        if v is None:
+            return [(True, st), (False, st)]
+        return [(v, st)]
+
+    def raises(self, node, st):
+        from ..flow import ANY
+        for c in ast.walk(node):
+            if isinstance(c, ast.Call) and isinstance(c.func, ast.Name) and \
+                    c.func.id == self.kv and st.k == 'CALLABLE':
+                return [ANY]
+        return []
+
+    def effects(self, stmt, st):
+        if isinstance(stmt, ast.Assign) and len(stmt.targets) == 1 and \
+                isinstance(stmt.targets[0], ast.Name) and \
+                stmt.targets[0].id == self.kv:
+            vals = self._val(stmt.value, st)
+            # fork handled by caller through simple(): return first, the
+            # interpreter asks simple() below
+            st = st.copy()
+            st.k = vals[0]
+            st._alts = vals[1:]
+            return st
+        if isinstance(stmt, ast.Expr) and isinstance(stmt.value, ast.Call) \
+                and isinstance(stmt.value.func, ast.Attribute) and \
+                stmt.value.func.attr == 'append' and stmt.value.args:
+            vals = self._val(stmt.value.args[0], st)
+            if any(v != 'OTHER' for v in vals):
+                st = st.copy()
+                st.out = vals[0]
+                st._alts_out = vals[1:]
+        return st
+
+    def simple(self, stmt, st):
+        from ..flow import NORMAL, RAISE, Outcome
+        outs = [Outcome(RAISE, st, e, stmt) for e in self.raises(stmt, st)]
+        ns = self.effects(stmt, st)
+        outs.append(Outcome(NORMAL, ns))
+        for v in getattr(ns, '_alts', ()):
+            a = ns.copy()
+            a.k = v
+            outs.append(Outcome(NORMAL, a))
+        for v in getattr(ns, '_alts_out', ()):
+            a = ns.copy()
+            a.out = v
+            outs.append(Outcome(NORMAL, a))
+        return outs
+
+    def on_return(self, node, st):
+        if node.value is not None:
+            vals = self._val(node.value, st)
+            st = st.copy()
+            st.out = vals[0]
+        return [], st
+
+
+WANT = {'NONE': {SMALL}, 'FALSY': {'FALSY'}, 'TRUTHY': {'TRUTHY'},
+        'CALLABLE': {'RESULT', SMALL}}
+WHAT = {'NONE': 'a key of None / a missing attribute',
+        'FALSY': 'a false but not None key (0, 0.0, "", False)',
+        'TRUTHY': 'an ordinary key value',
+        'CALLABLE': 'a callable attribute'}
+
+
+def rule_extractor_semantics(model, r):
+    """Interpret every key extractor for each kind of key value."""
+    frs = key_fragments(model)
+    if not frs:
+        raise AnalysisError('C13.R4: no sort-key extractor found')
+    for fi, stmts, kv in frs:
+        for start, want in WANT.items():
+            dom = _KeyDomain(kv, start)
+            outs = Interp(dom).block(stmts, _KS(start))
+            got = set()
+            for o in outs:
+                if o.kind == 'raise':
+                    got.add('EXCEPTION')
+                elif o.kind in ('normal', 'return', 'continue'):
+                    got.add(o.state.out if o.state.out is not None
+                            else o.state.k)
+            r.instance(fi.where, f'extractor of `{kv}`: {start}',
+                       ' / '.join(sorted(got)))
+            bad = got - want
+            if start == 'CALLABLE' and 'RESULT' not in got:
+                bad = bad | {'never called'}
+            for b in sorted(bad):
+                msg = {
+                    'NONE': 'stays None: it is compared with the other '
+                            'keys (TypeError) instead of sorting first',
+                    'SMALLEST': 'is replaced by the smallest key: it sorts '
+                                'before negative numbers and ties with '
+                                'missing keys',
+                    'CALLABLE': 'is used uncalled as the sort key',
+                    'never called': 'is never called to obtain the key',
+                    'EXCEPTION': 'lets an exception of the callable '
+                                 'escape the sort',
+                }.get(b, f'becomes {b}')
+                r.finding(fi.where, f'extractor of `{kv}`: {start} -> {b}',
+                          f'{WHAT[start]} {msg}', node=stmts[0], ctx=fi)
+    return len(frs)
+
+
 def rule_order(model, r):
     frs = key_fragments(model)
     if not frs:
@@ -305,7 +516,7 @@ def rule_twins(model):
     r = RuleResult('C13.R4', 'the single-key and multi-key extractors agree '
                    'on getter, call-if-not-basic step, failure handling and '
                    'None handling (None handled after the call step)')
-    nfr = rule_order(model, r)
+    nfr = rule_extractor_semantics(model, r)
     try:
         fi, loop, single = _extractors(model)
     except AnalysisError:
@@ -342,7 +553,10 @@ def rule_twins(model):
                     keyvar_s = c.targets[0].id
                     break
     if None in (keyvar_m, fieldvar_m, keyvar_s, fieldvar_s):
-        raise AnalysisError('key extractor twins: variables not identified')
+        # not of the twin shape: agreement is decided by the semantic
+        # interpretation above (both extractors map every kind of key to
+        # the same abstract result)
+        return r
 
     def canon(stmts, kv, fv):
         out = []
